@@ -96,6 +96,10 @@ func firstPackets(thorough bool) []firstPacket {
 	}{
 		{"", false, "code2"}, {"", true, "accept"}, {"abcdefghijklmnopqrstuvw", true, "accept"}, {"abcdefghijklmnopqrstuvw", false, "accept"},
 		{"abcdefghijklmnopqrstuvwxyz0123456", true, "accept-or-code2"}, {"a\x01b", true, "accept-or-code2"}, {"a b/c+#", true, "accept-or-code2"},
+		// a valid UTF-8 identifier outside ASCII: the server's policy, either answer is fine
+		{"caf\xc3\xa9", true, "accept-or-code2"},
+		// ill-formed UTF-8 is no string at all [MQTT-1.5.3-1]: never accepted
+		{"v\xffd", true, "code2-or-close"}, {"trunc\xc3", true, "code2-or-close"}, {"\xed\xa0\x80", true, "code2-or-close"},
 	}
 	for _, x := range ids {
 		fl := byte(0)
